@@ -28,22 +28,27 @@ def run(eng: Engine, ck: Check):
     repo = eng.repo
     tt = eng.func(USERM, f'{UTM}._tracking_task')
     rt = eng.func(USERM, f'{UTM}._request_tracking')
-    ru = eng.func(USERM, f'{UTM}._request_untracking')
+    ru = eng.repo.find_func(USERM, f'{UTM}._request_untracking')      # may be written in place in the worker
     ck.visited(tt)
 
     # ---- R-C15-OWNERS
     n_add = n_rem = 0
+    in_place_untrack: list = []
     for f in repo.all_funcs():
         for c in calls_in(f.node):
             if call_name(c) == 'Request' and unparse(c.func) in ('AddUser.Request', 'RemoveUser.Request'):
                 which = unparse(c.func)
-                owner = rt if which == 'AddUser.Request' else ru
+                owner = rt if which == 'AddUser.Request' else (ru or tt)
                 n_add += which == 'AddUser.Request'
                 n_rem += which == 'RemoveUser.Request'
                 ck.ob('R-C15-OWNERS', f, c, f'{which} is built only in {owner.name}', f is owner, f'built in {f.qualname}', construct=f'{f.key} builds {which}')
+                if f is tt and which == 'RemoveUser.Request':
+                    in_place_untrack.append(c)
+                    ok = bool(c.args) and unparse(expand_aliases(tt, c.args[0])) == f'{[p_ for p_ in tt.params if p_ != "self"][0]}.user.name'
+                    ck.ob('R-C15-OWNERS', tt, c, 'the RemoveUser request names the tracked user', ok, unparse(c), construct='in-place untrack user')
     ck.floor('R-C15-OWNERS.add', n_add, 1)
     ck.floor('R-C15-OWNERS.remove', n_rem, 1)
-    for owner in (rt, ru):
+    for owner in [o_ for o_ in (rt, ru) if o_ is not None]:
         for caller, call, how in eng.res.callers_of(owner):
             if how == 'call':
                 ck.ob('R-C15-OWNERS', caller, call, f'{owner.name} is called only by the per-user worker', caller is tt, caller.qualname,
@@ -68,6 +73,9 @@ def run(eng: Engine, ck: Check):
               + (' — xor toggles: untracking a reason that is not held ADDS it (spurious AddUser, missing RemoveUser)' if mname == 'remove_flag' else ''),
               construct=f'TrackedUser.{mname} semantics')
 
+    from . import defs
+    defs.network_send_helpers(eng, ck, 'R-C15-OWNERS')
+    defs.cancel_task_definition(eng, ck, 'R-C15-EDGES')
     # ---- R-C15-EDGES
     # names the worker uses (discovered, not assumed): the tracked-user parameter, the request taken from its queue, the snapshot
     # of the flags, the "this is a retry" local
@@ -81,7 +89,7 @@ def run(eng: Engine, ck: Check):
     FLAGS = f'{TU}.flags'
     sa0 = single_assignments(tt)
     RETRY = next((k_ for k_, v_ in sa0.items() if v_ is not None and flag_zero_test(v_, f'{REQ}.flag')), None)
-    unt = calls_on(tt.node, '_request_untracking')
+    unt = (calls_on(tt.node, ru.name) if ru is not None else []) + in_place_untrack
     trk = calls_on(tt.node, '_request_tracking')
     ck.floor('R-C15-EDGES', min(len(unt), len(trk)), 1)
     for c in unt:
